@@ -9,11 +9,11 @@
 #define VF_BN_MAXCOUNT	BN_MAX_DIGITS
 #endif
 
-#ifdef VF_BN_SAFETY_ONLY
-#define VF_FILL(a, src, n)	do { } while (0)
-#else
-#define VF_FILL(a, src, n)	do { for (size_t i_ = 0; i_ < (n) && i_ < BN_MAX_DIGITS; i_ ++) (a)[i_] = ((const bn_digit_t *)(const void *)(src).b)[i_]; } while (0)
-#endif
+/* Safety jobs: heap arrays whose size expression carries no sizeof(): CBMC then types the object
+ * as a byte array (see VF_BN_ALLOC in specs/bn_spec.h).  Value jobs: fixed-size arrays of
+ * BN_MAX_DIGITS digits inside a recorded (replayable) struct, symbolic count <= BN_MAX_DIGITS. */
+#define VF_DSZ	((size_t)(BN_DIGIT_BIT_CNT / 8))
+struct vf_digs { bn_digit_t d[BN_MAX_DIGITS]; };
 
 void harness(void) {
 	VF_NONDET(size_t, a_count);
@@ -22,12 +22,13 @@ void harness(void) {
 	VF_NONDET(bn_digit_t, d);
 	VF_NONDET(uint8_t, sel);	/* bit 0: b aliases a; bit 1: carry/borrow pointer is NULL */
 	VF_ASSUME(a_count <= VF_BN_MAXCOUNT && b_count <= VF_BN_MAXCOUNT);
-#ifndef VF_BN_SAFETY_ONLY
-	VF_NONDET_BYTES(a_init, BN_MAX_DIGITS * sizeof(bn_digit_t));
-	VF_NONDET_BYTES(b_init, BN_MAX_DIGITS * sizeof(bn_digit_t));
+#ifdef VF_BN_SAFETY_ONLY
+	VF_BN_ALLOC(bn_digit_t, a, a_count * VF_DSZ);
+#else
+	VF_NONDET_OBJ(struct vf_digs, a_obj);
+	VF_NONDET_OBJ(struct vf_digs, b_obj);
+	bn_digit_t *a = a_obj.d;
 #endif
-	VF_BN_ALLOC(bn_digit_t, a, a_count * sizeof(bn_digit_t));
-	VF_FILL(a, a_init, a_count);
 	bn_digit_t cb = 0, *pcb = (sel & 2) ? NULL : &cb;
 	size_t r = 0;
 	int e = 0;
@@ -55,9 +56,12 @@ void harness(void) {
 		b = a;
 		VF_ASSUME(b_count <= a_count);
 	} else {
-		VF_BN_ALLOC(bn_digit_t, b2, b_count * sizeof(bn_digit_t));
-		VF_FILL(b2, b_init, b_count);
+#ifdef VF_BN_SAFETY_ONLY
+		VF_BN_ALLOC(bn_digit_t, b2, b_count * VF_DSZ);
 		b = b2;
+#else
+		b = b_obj.d;
+#endif
 	}
 #if defined(VF_FN_cmp)
 	VF_ASSUME(b_count == a_count);
